@@ -26,7 +26,7 @@ def profile() -> Dict:
                     "vertices": 0.5, "c_vars": 0.5, "tl_vars": 0.4, "c_hash": 0.3, "compound_from_strings": 0.3, "compound_misc": 0.3, "compound_file": 0.3, "compound_merge": 0.3, "compound_le": 0.3, "c_eq": 0.3, "tl_eq": 0.3, "c_str": 0.3},
         "p_plots": 0.35,
         "p_logging": 0.35,
-        "solver_fault_rates": [0.0, 0.0, 0.06, 0.15],
+        "solver_fault_rates": [0.0, 0.0, 0.0, 0.08],
         "fs_fault_rates": [0.0, 0.3],
     }
 
@@ -83,6 +83,7 @@ def run(tier: str, runs_override: Optional[int] = None) -> int:
             "results_vandalised": st.get("results_vandalised", 0),
             "pristine_interpreter_replays": st.get("pristine_replays", 0),
             "pristine_timeouts": st.get("pristine_timeouts", 0),
+            "steps_with_history_oracles_off_after_a_solver_giveup": st.get("history_oracles_skipped_after_giveup", 0),
             "grammar_probes": st.get("grammar_probes", 0),
             "O5_reparses": st.get("O5_reparses", 0),
             "pool_updates": st.get("pool_updates", 0),
